@@ -32,3 +32,14 @@ package kvstore
 //@   ensures #only_that_table_leaves [C11]: len(t.storage.tables) == old(len(t.storage.tables)) - 1 &&
 //@                (forall j int {t.storage.tables[j]} :: 0 <= j && j < index ==> t.storage.tables[j] == old(t.storage.tables[j])) &&
 //@                (forall j int {t.storage.tables[j]} :: index <= j && j < len(t.storage.tables) ==> t.storage.tables[j] == old(t.storage.tables[j+1]))
+
+// Export picks the first table that is not recycled; the index it hands back is the one Drop must remove.
+//@ import table "github.com/olric-data/olric/internal/kvstore/table"
+//@ func (t *transferIterator) Export() ([]byte, int, error)
+//@   props C11
+//@   requires #shape: t != nil && t.storage != nil &&
+//@                (forall i int {t.storage.tables[i]} :: 0 <= i && i < len(t.storage.tables) ==> t.storage.tables[i] != nil && t.storage.tables[i].inv())
+//@   ensures #exports_a_live_table [C11]: result.2 == nil ==> 0 <= result.1 && result.1 < len(t.storage.tables) && t.storage.tables[result.1].state != table.RecycledState
+//@   ensures #the_first_live_table [C11]: result.2 == nil ==> forall j int {t.storage.tables[j]} :: 0 <= j && j < result.1 ==> t.storage.tables[j].state == table.RecycledState
+//@   ensures #store_untouched [C11]: len(t.storage.tables) == old(len(t.storage.tables)) && forall j int {t.storage.tables[j]} :: 0 <= j && j < len(t.storage.tables) ==> t.storage.tables[j] == old(t.storage.tables[j]) && t.storage.tables[j].state == old(t.storage.tables[j].state)
+//@   loop 0 invariant #skipped_are_recycled: forall j int {receiver.storage.tables[j]} :: 0 <= j && j <= rangeindex && j < len(receiver.storage.tables) ==> receiver.storage.tables[j].state == table.RecycledState
